@@ -32,6 +32,11 @@ class Profile:
         self.same_source_boost = 0.3
         self.p_event_param_guard = 0.05
         self.shuffle_names = True
+        self.events = None            # event alphabet of the transitions (default EVENTS)
+        self.p_sibling_target = 0.0   # probability that a target is a sibling of the source (stays in its region)
+        self.p_root_orth = 0.15
+        self.unique_source_event = False   # at most one transition per (source, event)
+        self.alt = None               # (probability, Profile): alternative profile drawn per chart
         self.__dict__.update(kw)
 
 
@@ -154,7 +159,7 @@ class Gen:
                 children[parent].append(nm)
             return nm
 
-        root_kind = 'compound' if rng.random() < 0.85 else 'orthogonal'
+        root_kind = 'orthogonal' if rng.random() < p.p_root_orth else 'compound'
         root = add(root_kind, None)
         budget = [n_target - 1]
 
@@ -261,11 +266,16 @@ class Gen:
                 src = rng.choice(owners)
             if rng.random() < p.p_internal:
                 tgt = None
+            elif states[src][1] is not None and rng.random() < p.p_sibling_target:
+                sibs = [c for c in children[states[src][1]] if states[c][0] not in ('shallow', 'deep')]
+                tgt = rng.choice(sibs)
             else:
                 tgt = rng.choice(order)
             if not wf7(src, tgt):
                 continue
-            ev = None if rng.random() < p.p_eventless else rng.choice(EVENTS)
+            ev = None if rng.random() < p.p_eventless else rng.choice(p.events or EVENTS)
+            if p.unique_source_event and any(t.source == src and t.event == ev for t in made_t):
+                continue
             guard = self.guard() if (rng.random() < p.p_guard or ev is None) else None
             if guard and ev and rng.random() < p.p_event_param_guard:
                 guard = guard + ' and event.v >= 0'
@@ -282,4 +292,17 @@ class Gen:
 
 
 def valid_chart(rng, profile=None):
-    return Gen(rng, profile or Profile()).build()
+    profile = profile or Profile()
+    if profile.alt is not None and rng.random() < profile.alt[0]:
+        profile = profile.alt[1]
+    return Gen(rng, profile).build()
+
+
+def parallel_profile(**kw):
+    """Charts in which several transitions fire in ONE macro step: orthogonal-heavy, one event name, targets mostly
+    inside the source's own region, few guards."""
+    d = dict(p_orth=0.55, p_root_orth=0.5, max_states=14, n_trans=(6, 16), events=['e0'], p_sibling_target=0.8,
+             p_guard=0.25, p_eventless=0.03, p_internal=0.2, p_history=0.15, p_final=0.03, p_contract=0.1,
+             same_source_boost=0.1, p_prio=0.3, unique_source_event=True)
+    d.update(kw)
+    return Profile(**d)
